@@ -5,6 +5,9 @@ import (
 	"go/ast"
 	"go/printer"
 	"go/token"
+	"os"
+	"path/filepath"
+	"sort"
 	"strconv"
 	"strings"
 )
@@ -229,6 +232,155 @@ func init() {
 				})
 			}
 		}
+		// --- pkg/lql: a nesting guard in front of the recursive-descent parser (finding F25) --------------------------
+		// fact: some function of pkg/lql compares a depth counter with the constant cMaxNestingDepth and returns an error, and every
+		// function that hands a text to participle (`….ParseString(text, …)`) calls it on that text first.
+		nestGuard, nestMax := false, int64(0)
+		{
+			files, _ := filepath.Glob(filepath.Join(repo, "pkg/lql/*.go"))
+			sort.Strings(files)
+			guardFn := ""
+			var parsed []*ast.File
+			for _, fn := range files {
+				if strings.HasSuffix(fn, "_test.go") || strings.HasSuffix(fn, "_verif.go") {
+					continue
+				}
+				rel, _ := filepath.Rel(repo, fn)
+				f := parseFile(rel)
+				if f == nil {
+					continue
+				}
+				parsed = append(parsed, f)
+				if v, ok := constValue(f, "cMaxNestingDepth"); ok {
+					nestMax, _ = strconv.ParseInt(v, 0, 64)
+				}
+				for _, d := range f.Decls {
+					fd, ok := d.(*ast.FuncDecl)
+					if !ok || fd.Body == nil || fd.Recv != nil {
+						continue
+					}
+					cmp, ret := false, false
+					ast.Inspect(fd.Body, func(n ast.Node) bool {
+						switch x := n.(type) {
+						case *ast.BinaryExpr:
+							if id, ok := x.Y.(*ast.Ident); ok && x.Op == token.GTR && id.Name == "cMaxNestingDepth" {
+								cmp = true
+							}
+						case *ast.ReturnStmt:
+							if len(x.Results) == 1 {
+								if id, ok := x.Results[0].(*ast.Ident); !ok || id.Name != "nil" {
+									ret = true
+								}
+							}
+						}
+						return true
+					})
+					if cmp && ret {
+						guardFn = fd.Name.Name
+					}
+				}
+			}
+			parsers, guarded := 0, 0
+			for _, f := range parsed {
+				for _, d := range f.Decls {
+					fd, ok := d.(*ast.FuncDecl)
+					if !ok || fd.Body == nil {
+						continue
+					}
+					var parsePos, guardPos token.Pos
+					ast.Inspect(fd.Body, func(n ast.Node) bool {
+						if ce, ok := n.(*ast.CallExpr); ok {
+							if se, ok := ce.Fun.(*ast.SelectorExpr); ok && se.Sel.Name == "ParseString" && parsePos == token.NoPos {
+								parsePos = ce.Pos()
+							}
+							if id, ok := ce.Fun.(*ast.Ident); ok && guardFn != "" && id.Name == guardFn && guardPos == token.NoPos {
+								guardPos = ce.Pos()
+							}
+						}
+						return true
+					})
+					if parsePos != token.NoPos {
+						parsers++
+						if guardPos != token.NoPos && guardPos < parsePos {
+							guarded++
+						}
+					}
+				}
+			}
+			if parsers == 0 {
+				problem("no function of pkg/lql calls ParseString any more: the nesting-guard fact cannot be read")
+			}
+			nestGuard = guardFn != "" && nestMax > 0 && parsers > 0 && guarded == parsers
+		}
+		l.p("/-- every function of pkg/lql that hands a text to the recursive-descent parser first rejects texts whose parentheses are")
+		l.p("nested deeper than `cMaxNestingDepth` -/")
+		l.p("def lqlNestingGuard : Bool := %s", leanBool(nestGuard))
+		l.p("/-- `cMaxNestingDepth` (0 when there is no such constant) -/")
+		l.p("def lqlMaxNesting : Nat := %d", nestMax)
+
+		// --- who calls model.LogEvent.Unmarshal? ------------------------------------------------------------------------
+		// the stored-record decoder keeps the unguarded library call; it must only see records the server marshalled itself.
+		// fact: the non-test, non-verif files of /repo with a call `x.Unmarshal(buf, <bool>)` (the signature of LogEvent.Unmarshal;
+		// json/yaml Unmarshal take a pointer as second argument)
+		var callers []string
+		filepath.Walk(repo, func(path string, info os.FileInfo, err error) error {
+			if err != nil {
+				return nil
+			}
+			if info.IsDir() {
+				if n := info.Name(); n == "vendor" || n == ".git" || n == "testdata" {
+					return filepath.SkipDir
+				}
+				return nil
+			}
+			if !strings.HasSuffix(path, ".go") || strings.HasSuffix(path, "_test.go") || strings.HasSuffix(path, "_verif.go") {
+				return nil
+			}
+			rel, _ := filepath.Rel(repo, path)
+			if strings.Contains(rel, "verifhook") {
+				return nil
+			}
+			f := parseFile(rel)
+			if f == nil {
+				return nil
+			}
+			verifOnly := false
+			for _, cg := range f.Comments {
+				if cg.Pos() < f.Package && strings.Contains(cg.Text(), "go:build verif") {
+					verifOnly = true
+				}
+			}
+			if verifOnly {
+				return nil
+			}
+			hit := false
+			ast.Inspect(f, func(n ast.Node) bool {
+				ce, ok := n.(*ast.CallExpr)
+				if !ok || len(ce.Args) != 2 {
+					return true
+				}
+				se, ok := ce.Fun.(*ast.SelectorExpr)
+				if !ok || se.Sel.Name != "Unmarshal" {
+					return true
+				}
+				if id, ok := ce.Args[1].(*ast.Ident); ok && (id.Name == "true" || id.Name == "false" || id.Name == "newBuf") {
+					hit = true
+				}
+				return true
+			})
+			if hit && rel != "pkg/model/logevent.go" {
+				callers = append(callers, rel)
+			}
+			return nil
+		})
+		sort.Strings(callers)
+		qs := make([]string, len(callers))
+		for i, c := range callers {
+			qs[i] = leanStr(c)
+		}
+		l.p("/-- the files of /repo (tests and verif-tagged exports excluded) that call `LogEvent.Unmarshal(buf, bool)` -/")
+		l.p("def logEventUnmarshalCallers : List String := [%s]", strings.Join(qs, ", "))
+
 		l.p("/-- `EscapeJsonStr` skips every rune that is not (RuneError, size 1) by its size — in particular a well-formed U+FFFD -/")
 		l.p("def escapeJsonSkipsValidRunes : Bool := %s", leanBool(fix))
 		l.write()
